@@ -113,6 +113,22 @@ theorem concat_rechunk_stream_msgs (n : Nat) (xs ys : List (Option Msg)) (h : xs
     EqvE (concatMsgChunks srcCfg n xs >>= fun r => concatMsgChunks srcCfg n (r :: ys)) (concatMsgChunks srcCfg n (xs ++ ys)) :=
   concatMsgChunks_rechunk srcCfg n xs ys h
 
+theorem concat_rechunk_stream_arrays (n : Nat) (xs ys : List (List (Option Msg))) (h : xs ≠ []) :
+    EqvE (concatArrChunks srcCfg n xs >>= fun r => concatArrChunks srcCfg n (r :: ys)) (concatArrChunks srcCfg n (xs ++ ys)) :=
+  concatArrChunks_rechunk srcCfg n xs ys h
+
+/-- `[]*Message` chunks (position-wise `concatMessageArray`) never panic either: `mas[0]` is
+    only evaluated on at least two arrays. -/
+theorem concat_arrays_never_panic (n : Nat) (xs : List (List (Option Msg))) :
+    concatArrChunks srcCfg n xs ≠ .error .panic :=
+  concatArrChunks_no_panic srcCfg (by decide) n xs
+
+/-- **the fuel is a proof device only**: any two fuels above the nesting depth of the extras
+    give the same result (so `concat_total` and `concat_rechunk` speak about one function). -/
+theorem fuel_irrelevant (n m : Nat) (ms : List Msg) (hn : extrasDepth ms < n) (hm : extrasDepth ms < m) :
+    concatMsgs srcCfg n ms = concatMsgs srcCfg m ms :=
+  concatMsgs_fuel_irrelevant srcCfg n m ms hn hm
+
 /-! ## arrival order and grouping by index -/
 
 /-- **args_in_order (text).** The content of the result is the contents of the chunks in
